@@ -39,7 +39,7 @@ def monitor(tr, case):
         if ir is None:
             continue
         c, t, N = lp.consts, lp.time_consts, lp.N
-        KD, POP = c["KCALS_DAILY"], c["POP"]
+        KD, POP = float(c["inputs"]["NUTRITION"]["KCALS_DAILY"]), float(c["inputs"]["POP"])  # scenario inputs, not derived constants
         fac = 1e9 / (30.0 * KD * POP) * 100.0
         rd = {"round": k + 1, "kind": lp.kind, "N": N}
         head = ir.percent_people_fed
